@@ -43,6 +43,7 @@ def new_net(chooser=None, menu=None, trunc="quick", servers=(H1, H2), delivery="
 
 
 STACKS = ("client", "pooled", "hash1", "hash2", "hash2p")
+USOCK = "/var/run/memcached/mc.sock"
 
 
 def build(stack, net, **cfg):
@@ -56,6 +57,10 @@ def build(stack, net, **cfg):
         return HashClient([H1], socket_module=sm, **cfg)
     if stack == "hash1d":  # one failure marks the only server dead (for dead_timeout = 60 s)
         return HashClient([H1], socket_module=sm, retry_attempts=0, **cfg)
+    if stack == "hashu1d":  # a UNIX-socket server and a TCP one; one failure evicts a server
+        if ("unix", USOCK) not in net.servers:
+            net.add_server(USOCK)
+        return HashClient([USOCK, H1], socket_module=sm, retry_attempts=0, **cfg)
     if stack == "hash2":
         return HashClient([H1, H2], socket_module=sm, **cfg)
     if stack == "hash2p":
